@@ -1,5 +1,5 @@
 (* Driver for the extracted C10 model.  One spec per line: schemas separated by ';'
-     s    ::= r<num> | o( list | list | list | list | opt | opt )      (props allof oneof anyof items addl)
+     s    ::= r<num> | o( list | list | list | list | opt | opt | 0/1 )      (props allof oneof anyof items addl)
      list ::= [ s { , s } ]        opt ::= - | s
    prints  D a>b a>b ... // M i:0|1 i:0|1 ...  (recorded dependency edges, cyclic marks) *)
 open C10_model
@@ -21,8 +21,9 @@ let parse (s : string) : sch list =
       SRef (n_of_int (int_of_string (String.sub s st (!pos - st))))
     | 'o' -> incr pos; eat '(';
       let p = lst () in eat '|'; let a = lst () in eat '|'; let o = lst () in eat '|'; let y = lst () in eat '|';
-      let i = opt () in eat '|'; let d = opt () in eat ')';
-      SObj (p, a, o, y, i, d)
+      let i = opt () in eat '|'; let d = opt () in eat '|';
+      let k = (peek () = '1') in incr pos; eat ')';
+      SObj (p, a, o, y, i, d, k)
     | c -> failwith (Printf.sprintf "bad char %c at %d" c !pos)
   and lst () =
     match peek () with
